@@ -260,7 +260,7 @@ type AuthCase struct {
 	Target   string `json:"target"`
 	Request  string `json:"request"`
 	Ban      string `json:"ban"`     // no, banned, unbanned (banned then unbanned)
-	Garbage  int    `json:"garbage"` // 0 real key, 1/4 one character changed to one outside the alphabet, 2 wrong length, 3 standard-base64 respelling
+	Garbage  int    `json:"garbage"` // 0 real key, 1/4 one character changed to one outside the alphabet, 2 wrong length, 3 standard-base64 respelling, 5-7 padded with white space
 	Salt     uint16 `json:"salt"`
 	Disturb  int    `json:"disturb,omitempty"` // between two identical decisions: 1 the key is used for a link extension, 2 a strong unrelated key is authorized, 3 both
 }
@@ -299,7 +299,7 @@ func genAuth(t *rapid.T) AuthCase {
 		case 6:
 			c.Ban = "banned"
 		case 7:
-			c.Garbage = rapid.IntRange(1, 4).Draw(t, "garbage")
+			c.Garbage = rapid.IntRange(1, 7).Draw(t, "garbage")
 		case 8:
 			c.Expiry, c.Ban = "future", rapid.SampledFrom([]string{"no", "unbanned"}).Draw(t, "ban") // benign variations
 		}
@@ -465,6 +465,8 @@ func runAuth(c AuthCase) vkit.Result {
 		} else {
 			enc = enc[:7] + "+" + enc[8:]
 		}
+	case 5, 6, 7: // the key padded with white space (a pasted key): not a key string, whatever it would decrypt to after trimming
+		enc = []string{enc + " ", "\t" + enc, enc + "\n"}[c.Garbage-5]
 	case 4: // one character replaced by a byte outside the URL-safe alphabet
 		enc = enc[:int(c.Salt)%32] + string([]byte{badBytes[int(c.Salt/32)%len(badBytes)]}) + enc[int(c.Salt)%32+1:]
 	}
